@@ -2,6 +2,9 @@ SPECIFICATION TSpec
 CONSTANTS
   CSs = {1}
   NPushes = {40}
+  Concs = {TRUE}
+  FaultKinds = {"none"}
+  SetErrOnlyIfNonNil = TRUE
   FinaliseWaits = TRUE
 INVARIANT Emit
 POSTCONDITION Consumed
